@@ -4,7 +4,8 @@ Every correspondence ties the value of a FRESHLY built object to the Coq model. 
 shows on the second evaluation of the same object (a cache that is not invalidated, a parameter
 corrupted in place, a flag raised in the wrong place) is invisible there.  This helper closes that
 gap generically: an object built from a JSON specification is observed, some of its leaf parameters
-are assigned new values of the same domain (through `Parameter.tensor = ...`, the public way), cached
+are given new values of the same domain (assignment of a new tensor; in-place edit followed by assigning
+the same tensor object back, as the MCMC operators do; in-place edit followed by the notification), cached
 intermediate quantities are read in a random order in between, and the observation is compared with
 that of a fresh object built from the same specification with the new values substituted.  The fresh
 object is the one the model correspondence speaks about, so by transitivity the history is tied to the
@@ -128,7 +129,20 @@ def run(obj, observe, rng, mutable=None, reads=(), steps=2, frozen=()):
             new = _perturb(torch, par.tensor, rng)
             if new is None:
                 continue
-            par.tensor = new
+            mode = rng.random()
+            if mode < 0.25 and new.shape == par.tensor.shape and not par.tensor.requires_grad:
+                # what the MCMC operators do: edit the held tensor in place, assign the SAME object back
+                held = par.tensor
+                held.copy_(new)
+                par.tensor = held
+                trace.append("inplace+assign-same-object")
+            elif mode < 0.4 and new.shape == par.tensor.shape and not par.tensor.requires_grad:
+                # an in-place change followed by the notification
+                par.tensor.copy_(new)
+                par.fire_parameter_changed()
+                trace.append("inplace+fire")
+            else:
+                par.tensor = new
             leaves[pid]["tensor"] = new.tolist()
             for k in ("full", "full_like", "ones", "zeros", "eye", "arange"):
                 leaves[pid].pop(k, None)
